@@ -75,6 +75,15 @@ func init() {
 			for b := 18; b < fs; b++ {
 				pos = append(pos, b)
 			}
+			// the control word is covered by the checksum too: one flipped bit of it (reserved bits, version, the checksum
+			// flag itself) never yields an accepted frame
+			for b := 2; b < 4; b++ {
+				for k := 0; k < 8; k++ {
+					p := append([]byte{}, base...)
+					p[b] ^= 1 << uint(k)
+					bitsCase(cw, p, fmt.Sprintf("flip1 control byte=%d bit=%d fs=%d", b, k, fs), true)
+				}
+			}
 			// every single-bit flip
 			for _, b := range pos {
 				for k := 0; k < 8; k++ {
@@ -130,7 +139,18 @@ func init() {
 					{"bit-reversed", rev8(good)}, {"halves-swapped-bytes", (good&0x00ff00ff)<<8 | (good&0xff00ff00)>>8}, {"plus-one", good + 1},
 					{"crc-of-data-only", crc32.ChecksumIEEE(base[18 : 18+l])}, {"crc-of-header-only", crc32.ChecksumIEEE(base[:18])}, {"crc-without-magic", crc32.ChecksumIEEE(base[2 : 18+l])},
 					{"crc-without-control", crc32.ChecksumIEEE(base[4 : 18+l])}, {"crc-including-padding", crc32.ChecksumIEEE(base)}, {"crc-castagnoli", crc32.Checksum(base[:18+l], crc32.MakeTable(crc32.Castagnoli))},
-					{"crc-init-zero", crc32.Update(0xffffffff, crc32.IEEETable, base[:18+l])}} {
+					{"crc-init-zero", crc32.Update(0xffffffff, crc32.IEEETable, base[:18+l])},
+					{"crc-with-flag-cleared", func() uint32 { q := append([]byte{}, base[:18+l]...); q[3] &^= 0x10; return crc32.ChecksumIEEE(q) }()},
+					{"crc-with-zero-time", func() uint32 {
+						q := append([]byte{}, base[:18+l]...)
+						copy(q[4:16], make([]byte, 12))
+						return crc32.ChecksumIEEE(q)
+					}()},
+					{"crc-with-zero-length", func() uint32 {
+						q := append([]byte{}, base[:18+l]...)
+						q[16], q[17] = 0, 0
+						return crc32.ChecksumIEEE(q)
+					}()}} {
 					name, v := nv.name, nv.v
 					if v == good {
 						continue
